@@ -75,10 +75,10 @@ def spec_classes(fmt):
 def chain(op, very_long=False):
     def f(spec, r):
         names = S.feature_names(spec)
-        k = r.choice([r.randint(3, 5), r.randint(6, 12), r.randint(13, 34)])
+        k = r.choice([r.randint(3, 5), r.randint(6, 12), r.choice([13, 15, 16, 17, 18, 24, 31, 32, 33, 34])])
         if very_long:
             k = r.choice([65, 127, 128, 129, 150, 255, 256, 257, 300, 513])
-        if very_long:
+        if very_long or k > len(names):
             # every operand a distinct feature (operands lost from a rule over repeated names would not change
             # its meaning): k fresh optional leaves under the root
             fresh = [f"Vl{j}x{len(spec['ctcs'])}" for j in range(k)]
